@@ -109,11 +109,12 @@ fn generate_track(track: &Track) -> Vec<u8> {
                 let delta_time = e.time - timepos;
                 array_push_delta(&mut res, delta_time);
                 timepos = timepos.max(e.time);
-                let size = data.len() - 1;
+                // 1st byte 0xF0 is not written as data (see below)
+                let size = if data[0] == 0xF0 { data.len() - 1 } else { data.len() };
                 // 1st byte must be 0xF0
                 res.push(0xF0); // SysEx Event
-                // 2nd byte must be length
-                res.push(size as u8);
+                // next must be length (variable-length quantity)
+                array_push_delta(&mut res, size as isize);
                 // write data
                 for (i, b) in data.iter().enumerate() {
                     if i == 0 && *b == 0xF0 { continue; }
